@@ -64,7 +64,7 @@ def obligations(tier):
            'LIS.core.FrameSet.FrameSet (real numpy/Cython storage, concrete per path)', 'LogiRec.LrDFSRRead/EntryBlockSet.readFromFile/DatumSpecBlockRead', 'File.FileRead', 'PhysRec.PhysRecRead']
     return [
         Ob('index_structure_end_to_end', 'ch', 'reference-encoded LIS file: header, optional table, DFSR, 1..3 data records of 1..3 frames, trailer; indirect X on/off, TIF on/off, '
-           'records split over physical records or not; up/down log, frame spacing in X units or in FEET (5 FEET = 600 .1IN)',
+           'records split over physical records or not (split files also null-padded to multiples of 2 / 4 bytes and opened with that pad modulo); up/down log, frame spacing in X units or in FEET (5 FEET = 600 .1IN)',
            e2e, harness='C06_logpass', func='index_structure', timeout=280 if q else 1200, parts=16, stubs=['SymFile', 'PyStruct']),
         Ob('load_slices_end_to_end_quick', 'ch', 'file with 3 data records of 2, 2..3, 1 frames; every slice (step 1..3), every non-empty subset of the two value channels, indirect X on/off, '
            'TIF on/off, with/without an earlier load, up/down log, frame spacing declared in X units or (indirect X) in FEET; values, X and byte ranges read',
